@@ -13,6 +13,17 @@
 (*   nst, cancelled, flagSet/syncFlag (sync_complete_ / the stack flag)    *)
 (*   stopReq, reg, cbBy : the attempt's inplace_stop_source, whether the   *)
 (*             cancellable's stop callback is registered, who runs it      *)
+(* TwoPhase (default FALSE, overridden in MutexV2TwoPhase.cfg): the waiter  *)
+(*   list is not the atomic sequence assumed above but prim/AbstractList,  *)
+(*   the specification that prim/AtomicIntrusiveList is shown to refine    *)
+(*   (prim/AtomicIntrusiveListRef): push_back = link (hidden) ... publish, *)
+(*   pop_front = claim ... unlink (null only if nothing is linked; waits   *)
+(*   for a hidden or claimed head), try_remove = claim ... unlink or fail  *)
+(*   (not linked / claimed), empty() = nothing visible from the head (it   *)
+(*   may say "empty" while a push_back is in flight, and "not empty" while *)
+(*   the last item is claimed).  The extra labels v2.push2 / v2.pop2 /     *)
+(*   v2.remove2 are interleaving points inside the list operations.  All   *)
+(*   invariants are re-checked under this weaker list.                     *)
 (* pc[t] is the schedule point a thread is parked at ("mutex.<pc>" hooks); *)
 (* labels starting with "_" are continuations inside one stretch: while a  *)
 (* thread is at such a label no other thread moves (Next), so a stretch    *)
@@ -34,11 +45,12 @@ EXTENDS Naturals, Sequences, FiniteSets, TLC
 CONSTANTS Threads, Att, Scenarios
 VARIABLES scn, locked, queue, cs, nst, cancelled, flagSet, syncFlag, stopReq, reg, cbBy,
           pc, ip, cur, ret, tcFail, st, cnt, owned, ended, pushSeq, popSeq,
-          sq, doneBy,
+          sq, doneBy, hiddenQ, claimQ,
           lastT, lastPc
 vars == <<scn, locked, queue, cs, nst, cancelled, flagSet, syncFlag, stopReq, reg, cbBy,
-          pc, ip, cur, ret, tcFail, st, cnt, owned, ended, pushSeq, popSeq, sq, doneBy>>
+          pc, ip, cur, ret, tcFail, st, cnt, owned, ended, pushSeq, popSeq, sq, doneBy, hiddenQ, claimQ>>
 View == vars
+TwoPhase == FALSE
 SchedKind == IF scn.sched = 1 THEN "inline" ELSE IF scn.sched = 2 THEN "rec" ELSE "plain"
 \* the thread (= context) that starts attempt a
 Owner(a) == CHOOSE t \in Threads : \E i \in 1..Len(scn.prog[t]) : scn.prog[t][i] = <<"lock", a>>
@@ -67,6 +79,7 @@ Init ==
   /\ st = [a \in Att |-> 0] /\ cnt = [a \in Att |-> 0] /\ owned = [a \in Att |-> FALSE] /\ ended = [a \in Att |-> FALSE]
   /\ pushSeq = <<>> /\ popSeq = <<>>
   /\ sq = [t \in Threads |-> <<>>] /\ doneBy = [a \in Att |-> 0]
+  /\ hiddenQ = {} /\ claimQ = [t \in Threads |-> 0]
   /\ lastT = 0 /\ lastPc = ""
 Go(t, l) == pc' = [pc EXCEPT ![t] = l] /\ UNCHANGED ip
 Mutex == <<locked, queue>>
@@ -75,6 +88,7 @@ Stops == <<stopReq, reg, cbBy>>
 Loc == <<cur, ret, tcFail>>
 Hist == <<st, cnt, owned, ended, pushSeq, popSeq>>
 Rec == <<sq, doneBy>>
+Tp == <<hiddenQ, claimQ>>
 
 \* ------------------------------------------------------------ harness level
 HLock(t) == /\ pc[t] = "h.lock"                         \* connect; LockStart; start(): cancellable::type::start()
@@ -165,25 +179,42 @@ V2Try(t) ==
                   /\ tcFail' = [tcFail EXCEPT ![t] = "_afterNested"] /\ Go(t, "c.completed") /\ UNCHANGED pushSeq
   /\ UNCHANGED <<queue, Canc, Stops, cnt, ended, popSeq>>
 V2Push(t) == /\ pc[t] = "v2.push"                       \* queue_.push_back(this); fence
-             /\ queue' = Append(queue, OpA(t)) /\ pushSeq' = Append(pushSeq, OpA(t)) /\ Go(t, "v2.xchg")
-             /\ UNCHANGED <<locked, Canc, Stops, Loc, st, cnt, owned, ended, popSeq>>
+             /\ queue' = Append(queue, OpA(t)) /\ pushSeq' = Append(pushSeq, OpA(t))
+             /\ IF TwoPhase THEN hiddenQ' = hiddenQ \cup {OpA(t)} /\ Go(t, "v2.push2")
+                            ELSE UNCHANGED hiddenQ /\ Go(t, "v2.xchg")
+             /\ UNCHANGED <<locked, Canc, Stops, Loc, st, cnt, owned, ended, popSeq, claimQ>>
+V2Push2(t) == /\ pc[t] = "v2.push2" /\ hiddenQ' = hiddenQ \ {OpA(t)} /\ Go(t, "v2.xchg")      \* publish
+              /\ UNCHANGED <<Mutex, Canc, Stops, Loc, Hist, claimQ>>
 V2Xchg(t) == /\ pc[t] = "v2.xchg"                       \* if (!locked_.exchange(true)) process_queue()
              /\ locked' = TRUE /\ ret' = [ret EXCEPT ![t] = "_afterNested"]
              /\ Go(t, IF locked THEN "_afterNested" ELSE "v2.pop")
              /\ UNCHANGED <<queue, Canc, Stops, cur, tcFail, Hist>>
+ClaimedQ(a) == \E u \in Threads : claimQ[u] = a
 V2Pop(t) == /\ pc[t] = "v2.pop"                         \* w = queue_.pop_front()
-            /\ IF queue # <<>>
-               THEN /\ cur' = [cur EXCEPT ![t] = Head(queue)] /\ queue' = Tail(queue)
-                    /\ popSeq' = Append(popSeq, Head(queue)) /\ Go(t, "v2.resume")
-               ELSE /\ UNCHANGED <<cur, queue, popSeq>> /\ Go(t, "v2.rel")
-            /\ UNCHANGED <<locked, Canc, Stops, ret, tcFail, st, cnt, owned, ended, pushSeq>>
+            /\ IF queue = <<>>
+               THEN /\ UNCHANGED <<cur, queue, popSeq, claimQ>> /\ Go(t, "v2.rel")
+               ELSE IF TwoPhase
+               THEN /\ Head(queue) \notin hiddenQ /\ ~ClaimedQ(Head(queue))      \* else it waits for the head link
+                    /\ claimQ' = [claimQ EXCEPT ![t] = Head(queue)] /\ cur' = [cur EXCEPT ![t] = Head(queue)]
+                    /\ UNCHANGED <<queue, popSeq>> /\ Go(t, "v2.pop2")
+               ELSE /\ cur' = [cur EXCEPT ![t] = Head(queue)] /\ queue' = Tail(queue)
+                    /\ popSeq' = Append(popSeq, Head(queue)) /\ Go(t, "v2.resume") /\ UNCHANGED claimQ
+            /\ UNCHANGED <<locked, Canc, Stops, ret, tcFail, st, cnt, owned, ended, pushSeq, hiddenQ>>
+V2Pop2(t) == /\ pc[t] = "v2.pop2"                       \* unlink the claimed head
+             /\ queue' = SelectSeq(queue, LAMBDA x : x # claimQ[t]) /\ popSeq' = Append(popSeq, claimQ[t])
+             /\ claimQ' = [claimQ EXCEPT ![t] = 0] /\ Go(t, "v2.resume")
+             /\ UNCHANGED <<locked, Canc, Stops, Loc, st, cnt, owned, ended, pushSeq, hiddenQ>>
 V2Resume(t) == /\ pc[t] = "v2.resume"                   \* resume_: if (try_complete(op)) forward else mutex_.unlock()
                /\ tcFail' = [tcFail EXCEPT ![t] = "v2.pop"] /\ Go(t, "c.completed")
                /\ UNCHANGED <<Mutex, Canc, Stops, cur, ret, Hist>>
 V2Rel(t) == /\ pc[t] = "v2.rel" /\ locked' = FALSE /\ Go(t, "v2.empty")      \* locked_.store(false); fence
             /\ UNCHANGED <<queue, Canc, Stops, Loc, Hist>>
+\* what the relaxed load of head_ sees: the items in front of the first push_back still in flight
+RECURSIVE UpToHiddenQ(_)
+UpToHiddenQ(q) == IF q = <<>> \/ Head(q) \in hiddenQ THEN <<>> ELSE <<Head(q)>> \o UpToHiddenQ(Tail(q))
+VisibleQ == UpToHiddenQ(queue)
 V2Empty(t) == /\ pc[t] = "v2.empty"                     \* if (queue_.empty()) return
-              /\ Go(t, IF queue = <<>> THEN ret[t] ELSE "v2.reacq")
+              /\ Go(t, IF VisibleQ = <<>> THEN ret[t] ELSE "v2.reacq")
               /\ UNCHANGED <<Mutex, Canc, Stops, Loc, Hist>>
 V2Reacq(t) == /\ pc[t] = "v2.reacq"                     \* if (locked_.exchange(true)) return; else loop
               /\ locked' = TRUE /\ Go(t, IF locked THEN ret[t] ELSE "v2.pop")
@@ -197,12 +228,20 @@ NStop(t) == /\ pc[t] = "_nstop"
             /\ UNCHANGED <<Mutex, cs, nst, flagSet, syncFlag, Stops, cur, ret, Hist>>
 InQ(a) == \E i \in 1..Len(queue) : queue[i] = a
 V2Remove(t) == /\ pc[t] = "v2.remove"                   \* if (queue_.try_remove(this)) { cancelled_ = true; try_complete... }
-               /\ IF InQ(cur[t])
-                  THEN /\ queue' = SelectSeq(queue, LAMBDA x : x # cur[t])
-                       /\ cancelled' = [cancelled EXCEPT ![cur[t]] = TRUE]
-                       /\ tcFail' = [tcFail EXCEPT ![t] = ret[t]] /\ Go(t, "c.completed")
-                  ELSE /\ UNCHANGED <<queue, cancelled, tcFail>> /\ Go(t, ret[t])
-               /\ UNCHANGED <<locked, cs, nst, flagSet, syncFlag, Stops, cur, ret, Hist>>
+               /\ IF InQ(cur[t]) /\ ~ClaimedQ(cur[t])
+                  THEN IF TwoPhase
+                       THEN /\ claimQ' = [claimQ EXCEPT ![t] = cur[t]] /\ Go(t, "v2.remove2")
+                            /\ UNCHANGED <<queue, cancelled, tcFail>>
+                       ELSE /\ queue' = SelectSeq(queue, LAMBDA x : x # cur[t])
+                            /\ cancelled' = [cancelled EXCEPT ![cur[t]] = TRUE]
+                            /\ tcFail' = [tcFail EXCEPT ![t] = ret[t]] /\ Go(t, "c.completed") /\ UNCHANGED claimQ
+                  ELSE /\ UNCHANGED <<queue, cancelled, tcFail, claimQ>> /\ Go(t, ret[t])
+               /\ UNCHANGED <<locked, cs, nst, flagSet, syncFlag, Stops, cur, ret, Hist, hiddenQ>>
+V2Remove2(t) == /\ pc[t] = "v2.remove2"                 \* unlink the claimed item
+                /\ queue' = SelectSeq(queue, LAMBDA x : x # cur[t]) /\ claimQ' = [claimQ EXCEPT ![t] = 0]
+                /\ cancelled' = [cancelled EXCEPT ![cur[t]] = TRUE]
+                /\ tcFail' = [tcFail EXCEPT ![t] = ret[t]] /\ Go(t, "c.completed")
+                /\ UNCHANGED <<locked, cs, nst, flagSet, syncFlag, Stops, cur, ret, Hist, hiddenQ>>
 \* try_complete(cur)
 CCompleted(t) == /\ pc[t] = "c.completed"               \* fetch_or(completed)
                  /\ IF "completed" \in cs[cur[t]]
@@ -237,10 +276,11 @@ Fwd(t) == /\ pc[t] = "_fwd"
 
 Step(t) == \/ /\ \/ HLock(t) \/ HTry(t) \/ HUnlock(t) \/ HStop(t) \/ OpEnd(t)
                  \/ CReg(t) \/ CStopped(t) \/ CbEnd(t) \/ CEarly(t) \/ AfterNested(t) \/ CStarted(t) \/ CSyncSpin(t)
-                 \/ V2Try(t) \/ V2Push(t) \/ V2Xchg(t) \/ V2Pop(t) \/ V2Resume(t) \/ V2Rel(t) \/ V2Empty(t) \/ V2Reacq(t)
-                 \/ NStop(t) \/ V2Remove(t) \/ CCompleted(t) \/ CFlag(t) \/ Cleanup(t) \/ SpinWait(t)
-              /\ UNCHANGED Rec
-           \/ HWait(t) \/ Fwd(t)
+                 \/ V2Try(t) \/ V2Xchg(t) \/ V2Resume(t) \/ V2Rel(t) \/ V2Empty(t) \/ V2Reacq(t)
+                 \/ NStop(t) \/ CCompleted(t) \/ CFlag(t) \/ Cleanup(t) \/ SpinWait(t)
+              /\ UNCHANGED <<Rec, Tp>>
+           \/ (HWait(t) \/ Fwd(t)) /\ UNCHANGED Tp
+           \/ (V2Push(t) \/ V2Push2(t) \/ V2Pop(t) \/ V2Pop2(t) \/ V2Remove(t) \/ V2Remove2(t)) /\ UNCHANGED Rec
 StepF(t) == Step(t) /\ lastT' = t /\ lastPc' = pc[t] /\ UNCHANGED scn
 AllDone == \A t \in Threads : pc[t] = "finished"
 InStretch == \E t \in Threads : Silent(pc[t])
@@ -265,7 +305,8 @@ FIFOGrant == \A i, j \in 1..Len(popSeq) : i < j => Idx(pushSeq, popSeq[i]) < Idx
 \* C11 clause (is_always_scheduler_affine): a completion is delivered on the context that started the attempt
 \* (with "plain"/"inline" schedulers a completion runs inline wherever the grant happens, so this is stated for "rec")
 AffineCompletion == SchedKind = "rec" => \A a \in Att : doneBy[a] # 0 => doneBy[a] = Owner(a)
-Terminal == AllDone => /\ ~locked /\ queue = <<>> /\ \A t \in Threads : sq[t] = <<>>
+Terminal == AllDone => /\ ~locked /\ queue = <<>> /\ \A t \in Threads : sq[t] = <<>> /\ claimQ[t] = 0
+                       /\ hiddenQ = {}
                        /\ \A a \in Att : st[a] \in {0, 3, 4, 5}
 \* a waiter obtained by pop_front has not been completed by anybody else: the "already completed by stop" branch of
 \* resume_ (which releases the lock again) is never taken, because stop() completes only a waiter it removed itself
